@@ -273,6 +273,9 @@ def run(ctx):
             for s in sn.blocks[b].stmts:
                 if s.rv is not None and s.rv.k == "agg" and s.rv.j.get("adt") == M + "size::SizeMatcher":
                     names = s.rv.j["fields"]
+                    if "unit" not in names or "value_to_match" not in names:
+                        ctx.ob("R4", "size-ctor", False, "SizeMatcher has fields %s; the rule knows (unit, value_to_match): the operand stored unchanged and compared per file in units — cannot decide a different representation (fail closed)" % names, fn=sn, where=prim.site(sn, b, s), how="provenance slice")
+                        continue
                     uo = prim.origin_of_operand(sn, s.rv.ops[names.index("unit")])
                     vo = prim.origin_of_operand(sn, s.rv.ops[names.index("value_to_match")]).strip()
                     ok = any(c.a["name"] == "parse" for c in uo.call_nodes()) and any(x.k == "arg" and x.a["name"] == "suffix_string" for x in uo.walk()) and vo.k == "arg"
